@@ -100,6 +100,16 @@ pub fn run() -> i32 {
             // sign
             let (spk, ssk) = crypto_sign_seed_keypair(s);
             let (wpk, wsk) = sodium::sign_seed_keypair(s);
+            // in-place form into buffers that already hold something (incl. the seed itself)
+            let mut ipk = [0x3cu8; 32];
+            let mut isk = [0xc3u8; 64];
+            isk[..32].copy_from_slice(s);
+            dryoc::classic::crypto_sign::crypto_sign_seed_keypair_inplace(&mut ipk, &mut isk, s);
+            v.push(("sign-seed-inplace", ipk == wpk && isk == wsk));
+            let (mut kipk, mut kisk) = ([0x3cu8; 32], [0xc3u8; 32]);
+            kisk.copy_from_slice(s);
+            let _ = dryoc::classic::crypto_box::crypto_box_seed_keypair_inplace(&mut kipk, &mut kisk, s);
+            v.push(("box-seed-inplace-prefilled", (kipk, kisk) == sodium::box_seed_keypair(s)));
             let o: SigningKeyPair<SB<32>, SB<64>> = SigningKeyPair::from_seed(s);
             let o2: SigningKeyPair<SB<32>, SB<64>> = SigningKeyPair::from_secret_key(SB::<64>::from(&wsk));
             let o3: SigningKeyPair<Vec<u8>, Vec<u8>> = SigningKeyPair::from_seed(&s.to_vec());
